@@ -161,6 +161,11 @@ pub fn gossip_case(i: u64, seed: u64) -> Scenario {
     sc.ops.push(Op::Disconnect { tick: t2 + 1, peer: a, handle: bh });
     sc.ticks = t2 + 2;
     sc.settle = sc.timeout_ms / 16 + 160;
+    if (r >> 44) % 2 == 0 {
+        // a spectator on a survivor must see the same cut-offs
+        let host = (0..4u8).find(|p| *p != x && *p != b).unwrap_or(0);
+        sc.specs.push(SpecSpec { host, max_behind: 10, catchup: 2, slow: 0, window: sc.max_pred });
+    }
     sc
 }
 
@@ -188,6 +193,9 @@ pub fn isolated_case(i: u64, seed: u64) -> Scenario {
     sc.ops.push(Op::Kill { tick: t, peer: 2 });
     sc.ticks = t + 1;
     sc.settle = sc.timeout_ms / 16 + 160;
+    if (r >> 44) % 2 == 0 {
+        sc.specs.push(SpecSpec { host: 0, max_behind: 10, catchup: 2, slow: 0, window: sc.max_pred });
+    }
     sc
 }
 
@@ -232,6 +240,9 @@ pub fn eval_gossip(sc: &Scenario) -> CaseResult {
     }
     if r.violation.is_none() {
         r.violation = dropped_player_timeline(&out).map(|(s, m)| (format!("{}|gossip_equal_amounts", s.replace("C07.", "C10.")), m));
+    }
+    if r.violation.is_none() {
+        r.violation = spectator_replay(sc, &out).map(|(s, m)| (format!("C10.spectator|{s}|gossip_equal_amounts"), m));
     }
     // non-trivial: the non-dropping survivor learnt the second cut-off before its own timeout could fire
     let t2 = sc.ops.iter().filter_map(|o| if let Op::Kill { tick, .. } = o { Some(*tick) } else { None }).max().unwrap_or(0);
